@@ -62,7 +62,7 @@ type collEnv struct {
 // key spec: universe index | F length << 4
 func (e *collEnv) define(spec int) int {
 	u := spec & 15
-	fl := spec >> 4
+	fl := (spec >> 4) & 0xff
 	if spec&(1<<20) != 0 {
 		u = spec & 0xff // generated entry with a concrete key
 	}
@@ -71,8 +71,15 @@ func (e *collEnv) define(spec int) int {
 		var f []byte
 		if u >= len(collUniverse) {
 			f = []byte{0x20, byte(3*u + 1)}
+		} else if spec&(1<<12) != 0 {
+			// first and third byte concrete ("k?x?"-shaped keys): fewer paths, same tree shapes
+			f = vpBytes(fl & 0xff)
+			f[0] = 0x6b
+			if len(f) > 2 {
+				f[2] = byte(0x70 + u&1)
+			}
 		} else {
-			f = vpBytes(fl)
+			f = vpBytes(fl & 0xff)
 		}
 		// the collator tells the strings apart; K1 = proper-prefix relation between two keys
 		bad := false
